@@ -201,6 +201,28 @@ class BenignQueue(InstructionGenerator):
         return self, tuple(out)
 
 
+class Stateful(InstructionGenerator):
+    """a generator in hive's immutable style whose behaviour depends on state it hands on by returning an updated copy
+    of itself (as examples/cosim_custom_dispatcher.py does): every k-th call it repositions one vehicle. If a stale copy
+    is used for a step, the count does not advance and the run diverges from a step-by-step run."""
+
+    def __init__(self, k: int = 3, n: int = 0):
+        self.k, self.n = k, n
+
+    @property
+    def name(self) -> str:
+        return "Stateful"
+
+    def generate_instructions(self, sim, env):
+        out = []
+        vids = sim.get_vehicle_ids()
+        if vids and self.n % self.k == self.k - 1:
+            vid = vids[(self.n // self.k) % len(vids)]
+            other = sim.vehicles[vids[(self.n // self.k + 1) % len(vids)]]
+            out.append(RepositionInstruction(vid, other.position.link_id))
+        return Stateful(self.k, self.n + 1), tuple(out)
+
+
 class Recorder(InstructionGenerator):
     """delegating wrapper with the inner generator's name; appends (name, sim_time, instructions) to ``log``."""
 
@@ -242,6 +264,8 @@ def build_generators(ctrl: Dict[str, Any], env, seed: int):
             kw = dict(item["benign_queue"])
             kw.setdefault("seed", seed)
             out.append(BenignQueue(**kw))
+        elif isinstance(item, dict) and "stateful" in item:
+            out.append(Stateful(**item["stateful"]))
         elif item == "Pending":
             out.append(Pending())
         else:
